@@ -65,8 +65,12 @@ func c15Gate(e *Env, s *Sched) {
 	ff := e.Facts(s.Loop)
 	allOK := true
 	var facts []string
+	var expanded [][]ir.Lit
 	for _, cj := range dnf {
-		lits := ir.NormalizeAll(ff.Expand([]ir.Lit(cj)))
+		expanded = append(expanded, ff.ExpandDNFRegion(body, []ir.Lit(cj))...)
+	}
+	for _, cj := range expanded {
+		lits := ir.NormalizeAll(cj)
 		good := false
 		for _, l := range lits {
 			if l.Kind != "cmp" {
